@@ -135,6 +135,7 @@ class Facts:
                 self.item_attrs[it["did"]] = it
         self._test_dids = None
         self._devirtualize_into()
+        self._normalize_ptr_methods()
         # closures by parent
         self.children = {}
         for b in self.bodies:
@@ -167,6 +168,29 @@ class Facts:
                     t = blk["term"]
                     if t["k"] == "call" and t["func"]["k"] == "const" and "fn" in t["func"]:
                         fix(t["func"]["fn"])
+
+    def _normalize_ptr_methods(self):
+        """the pointer *methods* that move bytes are spelled as the free functions the rules know:
+        `src.copy_to_nonoverlapping(dst, n)` / `dst.copy_from_nonoverlapping(src, n)` = `ptr::copy_nonoverlapping(src, dst, n)`,
+        `src.copy_to(dst, n)` / `dst.copy_from(src, n)` = `ptr::copy(src, dst, n)`, `dst.write_bytes(v, n)` = `ptr::write_bytes(dst, v, n)`"""
+        table = {"copy_to_nonoverlapping": ("copy_nonoverlapping", (0, 1, 2)), "copy_from_nonoverlapping": ("copy_nonoverlapping", (1, 0, 2)),
+                 "copy_to": ("copy", (0, 1, 2)), "copy_from": ("copy", (1, 0, 2)), "write_bytes": ("write_bytes", (0, 1, 2))}
+        for b in self.bodies:
+            for bb in [b] + b.promoted:
+                for blk in bb.blocks:
+                    t = blk["term"]
+                    if t["k"] != "call" or t["func"]["k"] != "const" or "fn" not in t["func"]:
+                        continue
+                    fn = t["func"]["fn"]
+                    r = fn.get("res") or fn
+                    p_ = r.get("path", "")
+                    if fn["name"] in table and ("ptr::mut_ptr::<impl *mut T>" in p_ or "ptr::const_ptr::<impl *const T>" in p_) and len(t["args"]) == 3:
+                        name, order = table[fn["name"]]
+                        targs = fn.get("args") or []
+                        full = "core::ptr::%s" % name + ("::<%s>" % targs[0] if targs else "")
+                        t["args"] = [t["args"][i] for i in order]
+                        t["func"]["fn"] = {"path": "core::ptr::%s" % name, "full": full, "args": targs, "local": False, "name": name, "unsafe": True,
+                                           "res": {"path": "core::ptr::%s" % name, "full": full, "local": False, "ikind": "item"}, "via": "pointer method " + fn["name"]}
 
     # ---- lookups -------------------------------------------------------------------------
     def body(self, ident):
